@@ -6,7 +6,7 @@
 //@ assume: LeafSet::open: store::read_bitmap is abstract (the bitmap decoded from the file's bytes, the ghost `disk` handed in); ASSUMED: decoding inverts the portable serialisation; lemma_flush_then_open (over the two contracts): reopening after a successful flush yields exactly the flushed leaf set, as bitmap AND as backup; T3: the debug block is removed
 //@ assume: 64-bit target
 //@ assumed_items: 21
-//@ fns: LeafSet::add, LeafSet::remove, LeafSet::includes, LeafSet::rewind, LeafSet::discard, LeafSet::flush (+ its writer closure), LeafSet::open
+//@ fns: LeafSet::add, LeafSet::remove, LeafSet::includes, LeafSet::rewind, LeafSet::discard, LeafSet::flush (+ its writer closure), LeafSet::open, LeafSet::copy_snapshot
 global size_of usize == 8;
 
 #[verifier::external_body]
@@ -166,6 +166,18 @@ impl LeafSet {
 //@   ensures:
 //@+    // what is opened is what the file holds (nothing, if there is no file), and the backup starts equal to it
 //@+    r matches Ok(ls) ==> ls.bitmap@ == (if sp_exists(*path) { sp_deser(disk.content) } else { Set::<int>::empty() }) && ls.bitmap_bak@ == ls.bitmap@ && ls.path == *path,
+//@ end
+
+//@ extract store/src/leaf_set.rs :: impl LeafSet::copy_snapshot
+//@   strip_logs
+//@   sigrewrite `pub fn copy_snapshot<P: AsRef<Path>>(path: P, cp_path: P)` => `pub fn copy_snapshot(path: &ExtPath, cp_path: &ExtPath, Tracked(snap): Tracked<&Disk>, Tracked(disk): Tracked<&mut Disk>)`
+//@   rewrite `read_bitmap(&cp_file_path)?` => `read_bitmap(&cp_file_path, Tracked(snap))?`
+//@   rewrite `leaf_set.flush()?;` => `leaf_set.flush(Tracked(disk))?;`
+//@   ensures:
+//@+    // the rewound snapshot (if there is one) REPLACES the primary leaf-set file: same set; no snapshot: the primary file is left alone
+//@+    r.is_ok() && sp_exists(*cp_path) ==> final(disk).content == sp_ser(sp_deser(snap.content)),
+//@+    r.is_ok() && !sp_exists(*cp_path) ==> final(disk).content == old(disk).content,
+//@+    r.is_err() ==> final(disk).content == old(disk).content,
 //@ end
 
 //@ extract store/src/leaf_set.rs :: impl LeafSet::flush
